@@ -45,6 +45,9 @@ MISSED = {
     "C11-e": "an OPT or TSIG record was only ever placed in the additional section: requests with one in the answer or authority section are generated and counted as malformed bodies (FORMERR)",
     "C13-f": "the client side was exercised through the stream multiplexer only: new sub-property `client_udp_replies` sends signed requests through the real `UdpClientStream::with_signer` on the simulated runtime against sequences of 1-3 reply datagrams (genuine or edited)",
     "C05-e": "no generated type had an embedded name that stays unfolded apart from the singleton NSEC: SVCB/HTTPS RRsets joined the generator, and injected case variants of NSEC/SVCB/HTTPS members are distinct RRs that must all be signed",
+    "C16-e": "a reply's question section was the asked question, a foreign one, an extra unasked one or a case-flipped one, never the asked question twice in two spellings: kind `ExactAndFlipped` (either order) joined the datagram alphabet",
+    "C20-e": "no generated name came near the 255-octet limit: 1 name in 23 is now padded to exactly 255 (or 254, 252) octets below its origin, so that its relative spelling completes to the boundary",
+    "C20-f": "$INCLUDE was only fed to the robustness sub-property: new sub-property `include_layout` moves runs of lines into included files (nested, with and without final newline, with $ORIGIN switches inside) and compares the loaded records; it had been written an hour before this seed arrived and had already exposed a genuine defect (origin leak, fixed in 659f378), but the committed check at the seed's arrival did not have it",
     "C19-e": "aliases came as chains and loops only: 1 simulated internet in 13 now has an alias tree (2-3 CNAME records per owner, 4-5 levels) and the number of its names looked up per client query is held against the recursor's cap of 64",
 }
 
